@@ -149,6 +149,19 @@ func registerIO(P *Program) {
 		h.f.lines = append(h.f.lines, &fileLine{content: data, length: in.lineLen(data)})
 		return Tuple{in.lenTerm(data), Iface{}}
 	})
+	// os.ReadFile of a modelled file: the content of the last write (dc4bc's result files are written once per operation, at
+	// offset 0 without truncation; a longer earlier content would leave a tail behind - outside the model)
+	r("os.ReadFile", func(in *Interp, caller *frame, fn *ssa.Function, args []Value) Value {
+		name, ok := cstr(args[0])
+		if !ok {
+			name = "sym:" + in.ts.Print(args[0].(*Term))
+		}
+		f, _ := in.hooks["file:"+name].(*fileObj)
+		if f == nil || len(f.lines) == 0 {
+			return Tuple{SliceV{}, in.newError(in.ts.Str("open " + name + ": no such file or directory"))}
+		}
+		return Tuple{f.lines[len(f.lines)-1].content, Iface{}}
+	})
 	r("(*os.File).Close", func(in *Interp, caller *frame, fn *ssa.Function, args []Value) Value {
 		handleOf(in, args[0]).closed = true
 		return Iface{}
